@@ -1,4 +1,7 @@
 import CwPlus.Lemmas.Cw3Flex
+import CwPlus.Lemmas.Cw3FlexInv
+import CwPlus.Lemmas.Cw3FlexAt
+import CwPlus.Lemmas.Cw3StatusTotal
 import CwPlus.Props.C09
 /-!
 # C06 — cw3: ballots are snapshot weights (cw3-flex-multisig part)
@@ -196,6 +199,190 @@ theorem ballots_are_snapshot {ext : Ext} {fuel : Nat} {m : InstMsg} {s : State} 
   obtain ⟨H', hq⟩ := snap_run ext fuel ops _ H0 h0 hge hord
   exact hq.ballot id p a b hp hb hne
 
+/-! ## one ballot per address, the voting window, who may propose (parity with the cw3-fixed part) -/
+
+/-- **At most one ballot per address and proposal** (clause a): the ballot map of every proposal of a reachable world
+has no repeated key … -/
+theorem one_ballot {ext : Ext} {fuel : Nat} {w : World} (hr : Reachable ext fuel w) (id : Nat) :
+    AMap.NodupKeys (ballotsOf w.flex.core id) :=
+  (reachable_inv hr).wf.nodup id
+
+/-- … and a second vote of the same address on the same proposal is refused (`AlreadyVoted`), whatever the group says.
+(A recorded ballot never changes: `C05Flex.ballot_never_changes`.) -/
+theorem vote_twice_fails {s : State} {g : Cw4Group.State} {self : Addr} {blk : Block} {snd : Addr} {funds : List Coin}
+    {id : Nat} {v : Vote} {b : Ballot} (hb : (ballotsOf s.core id).get? snd = some b) :
+    (Cw3Flex.execute s g self blk snd funds (.vote id v)).isOk = false := by
+  cases h : Cw3Flex.execute s g self blk snd funds (.vote id v) with
+  | error e => rfl
+  | ok r =>
+    obtain ⟨s', out⟩ := r
+    obtain ⟨_, _, _, _, _, hnb, _⟩ := voter_ballot_is_snapshot h
+    rw [hb] at hnb; cases hnb
+
+/-- **Cast before expiry on a proposal not yet executed** (clause b): a Vote is accepted only while the proposal is
+not expired at the current block and its stored status is Open, Passed or Rejected (never Executed); the ballot then
+records exactly the weight the group reports for the sender at the proposal's start height, which is ≥ 1. -/
+theorem vote_requires_open_window {s s' : State} {g : Cw4Group.State} {self : Addr} {blk : Block} {snd : Addr}
+    {funds : List Coin} {id : Nat} {v : Vote} {out : List Out}
+    (h : Cw3Flex.execute s g self blk snd funds (.vote id v) = .ok (s', out)) :
+    ∃ p w, s.core.proposals.get? id = some p ∧ p.expires.isExpired blk = false ∧
+      (p.status = .open ∨ p.status = .passed ∨ p.status = .rejected) ∧ p.status ≠ .executed ∧
+      memberAt g snd p.startHeight = some w ∧ 1 ≤ w ∧ (ballotsOf s.core id).get? snd = none ∧
+      (ballotsOf s'.core id).get? snd = some ⟨w, v⟩ := by
+  obtain ⟨_, hc⟩ := execute_cases h
+  rcases hc with ⟨_, _, _, _, _, _, _, hm, _⟩ | ⟨id0, v0, hm, _, hv⟩ | ⟨_, _, _, hm, _⟩ | ⟨_, _, hm, _⟩ | ⟨hm, _⟩ <;> cases hm
+  obtain ⟨p, w, votes, st, hp, hvot, hexp, hw, hw1, hnb, _, _, hc'⟩ := vote_spec hv
+  refine ⟨p, w, hp, hexp, ?_, ?_, hw, hw1, hnb, ?_⟩
+  · cases hs : p.status <;> simp_all [votable]
+  · cases hs : p.status <;> simp_all [votable]
+  · rw [hc', ballotsOf_set]; simp
+
+/-- **Addresses with no (or zero) snapshot weight cannot vote** (clause d). -/
+theorem zero_weight_cannot_vote {s : State} {g : Cw4Group.State} {self : Addr} {blk : Block} {snd : Addr} {funds : List Coin}
+    {id : Nat} {v : Vote} {p : Proposal} (hp : s.core.proposals.get? id = some p)
+    (hz : (memberAt g snd p.startHeight).getD 0 = 0) : (Cw3Flex.execute s g self blk snd funds (.vote id v)).isOk = false := by
+  cases h : Cw3Flex.execute s g self blk snd funds (.vote id v) with
+  | error e => rfl
+  | ok r =>
+    obtain ⟨s', out⟩ := r
+    obtain ⟨p', w, hp', _, _, _, hw, hw1, _⟩ := vote_requires_open_window h
+    rw [hp] at hp'; cases hp'
+    rw [hw] at hz; simp at hz; omega
+
+/-- **A non-member of the group cannot propose** (clause d): `Propose` needs a current raw `members` entry of the sender
+(its weight may be 0). -/
+theorem outsider_cannot_propose {s : State} {g : Cw4Group.State} {self : Addr} {blk : Block} {snd : Addr} {funds : List Coin}
+    {t d : String} {msgs : List Msg} {latest : Option Expiration} (hz : memberNow g snd = none) :
+    (Cw3Flex.execute s g self blk snd funds (.propose t d msgs latest)).isOk = false := by
+  cases h : Cw3Flex.execute s g self blk snd funds (.propose t d msgs latest) with
+  | error e => rfl
+  | ok r =>
+    obtain ⟨s', out⟩ := r
+    obtain ⟨_, hc⟩ := execute_cases h
+    rcases hc with ⟨_, _, _, _, w, _, _, hm, hw, _⟩ | ⟨_, _, hm, _⟩ | ⟨_, _, _, hm, _⟩ | ⟨_, _, hm, _⟩ | ⟨hm, _⟩ <;> cases hm
+    rw [hz] at hw; cases hw
+
+/-- Every proposal's proposer holds a Yes ballot (the implicit first vote), and every other ballot weighs ≥ 1. -/
+def BallotInv (s : State) : Prop :=
+  Inv s ∧ (∀ id p, s.core.proposals.get? id = some p → ∃ w, (ballotsOf s.core id).get? p.proposer = some ⟨w, .yes⟩) ∧
+    ∀ id p a b, s.core.proposals.get? id = some p → (ballotsOf s.core id).get? a = some b → a ≠ p.proposer → 1 ≤ b.weight
+
+theorem ballotInv_step {s s' : State} {g : Cw4Group.State} {self : Addr} {blk : Block} {snd : Addr} {funds : List Coin}
+    {m : ExecMsg} {out : List Out} (hq : BallotInv s) (h : Cw3Flex.execute s g self blk snd funds m = .ok (s', out)) :
+    BallotInv s' := by
+  obtain ⟨hi, hy, hw⟩ := hq
+  refine ⟨execute_inv hi h, ?_, ?_⟩
+  all_goals
+    obtain ⟨_, hc⟩ := execute_cases h
+    rcases hc with ⟨t, d, msgs, latest, w0, total, id0, _, _, _, _, _, hp⟩ | ⟨id0, v, _, _, hv⟩ | ⟨id0, p0, msgs, _, _, hex, _⟩ |
+      ⟨id0, p0, _, _, hcl, _⟩ | ⟨_, _, rfl, _⟩
+  · obtain ⟨expires, st, _, _, hid, _, hc'⟩ := propose_spec hp
+    have hnone : s.core.proposals.get? id0 = none := hi.wf.fresh (by omega)
+    have hb0 : ballotsOf s.core id0 = [] := hi.wf.noBallots id0 hnone
+    intro id p hpp
+    simp only [hc', AMap.get?_set] at hpp
+    simp only [hc', ballotsOf_set]
+    by_cases e : id0 = id
+    · simp only [e, if_true, Option.some.injEq] at hpp ⊢
+      rw [← e, hb0]; subst hpp
+      exact ⟨w0, by simp [AMap.set, AMap.get?]⟩
+    · simp only [e, if_false] at hpp ⊢; exact hy id p hpp
+  · obtain ⟨p1, w1, votes, st, hp1, _, _, _, _, hnb, _, _, hc'⟩ := vote_spec hv
+    intro id p hpp
+    simp only [hc', AMap.get?_set] at hpp
+    simp only [hc', ballotsOf_set]
+    by_cases e : id0 = id
+    · simp only [e, if_true, Option.some.injEq] at hpp ⊢
+      subst hpp; subst e
+      obtain ⟨w, hb⟩ := hy id0 p1 hp1
+      refine ⟨w, ?_⟩
+      simp only
+      rw [AMap.get?_set]
+      by_cases ea : snd = p1.proposer
+      · rw [ea] at hnb; rw [hnb] at hb; cases hb
+      · simp only [ea, if_false]; exact hb
+    · simp only [e, if_false] at hpp ⊢; exact hy id p hpp
+  · obtain ⟨p1, hp1, _, _, _, hc'⟩ := execute_spec hex
+    intro id p hpp
+    simp only [hc', AMap.get?_set] at hpp
+    simp only [hc', ballotsOf_frame]
+    by_cases e : id0 = id
+    · simp only [e, if_true, Option.some.injEq] at hpp; subst hpp; subst e; exact hy id0 p1 hp1
+    · simp only [e, if_false] at hpp; exact hy id p hpp
+  · obtain ⟨p1, _, hp1, _, _, _, _, _, _, hc'⟩ := close_spec hcl
+    intro id p hpp
+    simp only [hc', AMap.get?_set] at hpp
+    simp only [hc', ballotsOf_frame]
+    by_cases e : id0 = id
+    · simp only [e, if_true, Option.some.injEq] at hpp; subst hpp; subst e; exact hy id0 p1 hp1
+    · simp only [e, if_false] at hpp; exact hy id p hpp
+  · exact hy
+  · obtain ⟨expires, st, _, _, hid, _, hc'⟩ := propose_spec hp
+    have hnone : s.core.proposals.get? id0 = none := hi.wf.fresh (by omega)
+    have hb0 : ballotsOf s.core id0 = [] := hi.wf.noBallots id0 hnone
+    intro id p a b hpp hb hne
+    simp only [hc', AMap.get?_set] at hpp
+    simp only [hc', ballotsOf_set] at hb
+    by_cases e : id0 = id
+    · simp only [e, if_true, Option.some.injEq] at hpp hb
+      rw [← e, hb0] at hb
+      simp [AMap.set, AMap.get?] at hb
+      subst hpp
+      exact absurd hb.1.symm hne
+    · simp only [e, if_false] at hpp hb; exact hw id p a b hpp hb hne
+  · obtain ⟨p1, w1, votes, st, hp1, _, _, _, hw1, hnb, _, _, hc'⟩ := vote_spec hv
+    intro id p a b hpp hb hne
+    simp only [hc', AMap.get?_set] at hpp
+    simp only [hc', ballotsOf_set] at hb
+    by_cases e : id0 = id
+    · simp only [e, if_true, Option.some.injEq] at hpp hb
+      subst hpp; subst e
+      rw [AMap.get?_set] at hb
+      by_cases ea : snd = a
+      · simp only [ea, if_true, Option.some.injEq] at hb; subst hb; exact hw1
+      · simp only [ea, if_false] at hb; exact hw id0 p1 a b hp1 hb hne
+    · simp only [e, if_false] at hpp hb; exact hw id p a b hpp hb hne
+  · obtain ⟨p1, hp1, _, _, _, hc'⟩ := execute_spec hex
+    intro id p a b hpp hb hne
+    simp only [hc', AMap.get?_set] at hpp
+    simp only [hc', ballotsOf_frame] at hb
+    by_cases e : id0 = id
+    · simp only [e, if_true, Option.some.injEq] at hpp; subst hpp; subst e; exact hw id0 p1 a b hp1 hb hne
+    · simp only [e, if_false] at hpp; exact hw id p a b hpp hb hne
+  · obtain ⟨p1, _, hp1, _, _, _, _, _, _, hc'⟩ := close_spec hcl
+    intro id p a b hpp hb hne
+    simp only [hc', AMap.get?_set] at hpp
+    simp only [hc', ballotsOf_frame] at hb
+    by_cases e : id0 = id
+    · simp only [e, if_true, Option.some.injEq] at hpp; subst hpp; subst e; exact hw id0 p1 a b hp1 hb hne
+    · simp only [e, if_false] at hpp; exact hw id p a b hpp hb hne
+  · exact hw
+
+theorem reachable_ballotInv {ext : Ext} {fuel : Nat} {w : World} (hr : Reachable ext fuel w) : BallotInv w.flex := by
+  obtain ⟨m, s, g, t, bank, self, ga, ta, h0, ops, hi, rfl⟩ := hr
+  refine run_state_inv ext BallotInv (fun _ _ _ _ _ _ _ _ _ hq h => ballotInv_step hq h) fuel ops _
+    ⟨instantiate_inv hi, ?_, ?_⟩
+  · intro id p hp; simp [World.init, instantiate_core hi, Core.empty] at hp
+  · intro id p a b hp; simp [World.init, instantiate_core hi, Core.empty] at hp
+
+/-- **The proposer's ballot is a Yes** in every reachable world (any history, any block order): the implicit first
+vote recorded by `Propose`, never changed since the proposer cannot vote again. -/
+theorem proposer_ballot_is_yes {ext : Ext} {fuel : Nat} {w : World} (hr : Reachable ext fuel w) {id : Nat} {p : Proposal}
+    (hp : w.flex.core.proposals.get? id = some p) : ∃ wt, (ballotsOf w.flex.core id).get? p.proposer = some ⟨wt, .yes⟩ :=
+  (reachable_ballotInv hr).2.1 id p hp
+
+/-- **Only the proposer's implicit Yes may carry zero weight** (clause d): every recorded ballot has weight ≥ 1 or is
+the Yes ballot of the proposal's proposer. -/
+theorem zero_weight_ballot_is_proposers_yes {ext : Ext} {fuel : Nat} {w : World} (hr : Reachable ext fuel w)
+    {id : Nat} {p : Proposal} {a : Addr} {b : Ballot}
+    (hp : w.flex.core.proposals.get? id = some p) (hb : (ballotsOf w.flex.core id).get? a = some b) :
+    1 ≤ b.weight ∨ (a = p.proposer ∧ b.vote = .yes) := by
+  by_cases e : a = p.proposer
+  · right
+    obtain ⟨wt, hy⟩ := proposer_ballot_is_yes hr hp
+    subst e; rw [hb] at hy; cases hy; exact ⟨rfl, rfl⟩
+  · exact Or.inl ((reachable_ballotInv hr).2.2 id p a b hp hb e)
+
 /-! ## later changes of the group -/
 
 /-- Dispatching the group's hook messages never changes the multisig, the group, the bank or the token
@@ -328,5 +515,422 @@ example :
     Cw4Group.queryTotalWeight w.group (some 11) = 7 ∧
     ((ballotsOf w.flex.core 1).get? "a").map (·.weight) = some 3 ∧ memberAt w.group "a" 11 = some 3 := by
   decide
+
+/-! ## history level: proposer and total are snapshot values, ballots never outweigh the total — under the guard
+
+The guard `CleanStart w.log id p.startHeight` (Lemmas/Cw3FlexInv.lean) reads the ghost log: no group write at the
+proposal's start height precedes the `Propose` that created it.  It is exactly the complement of the known
+same-block finding (D3, `C06_flex_counterexample`).  Everything below is an invariant of whole histories with
+non-decreasing block heights, nested dispatches (group updates sent by proposals, hooks, self-calls) included. -/
+
+/-- At height `h` the group's snapshot is a membership map `M` without repeated keys whose weights sum to `total`
+(a `u64`): `Member { a, at_height: h }` answers `M.get? a` for every address, `TotalWeight { at_height: h }` answers
+`total`. -/
+def Snapshotted (g : Cw4Group.State) (h total : Nat) : Prop :=
+  ∃ M : AMap Addr Nat, AMap.NodupKeys M ∧ AMap.sum M = total ∧ total ≤ U64_MAX ∧
+    (∀ a, memberAt g a h = M.get? a) ∧ g.total.atHeight h = some total
+
+/-- `SnapInv` plus: the strengthened state invariant `Inv'`; the group satisfies the cw4-group invariant of C09
+(total = Σ weights, one entry per member, `u64`); if no group write happened in block `H` yet, the group's changelogs
+end before `H`; and for every proposal whose creation is not preceded by a group write in its own block
+(`CleanStart`): its `total_weight` and the membership at its start height form a `Snapshotted` snapshot, and the
+proposer's ballot carries the proposer's snapshot weight. -/
+structure TotalInv (w : World) (H : Nat) : Prop where
+  snap : SnapInv w H
+  inv' : Inv' w.flex
+  grp : CwPlus.Props.C09.Inv w.group
+  fresh : Event.groupWrite H ∉ w.log → ∃ B, B < H ∧ w.group.members.LogLe B ∧ w.group.total.LogLe B
+  total : ∀ id p, w.flex.core.proposals.get? id = some p → CleanStart w.log id p.startHeight →
+    Snapshotted w.group p.startHeight p.totalWeight
+  propBallot : ∀ id p b, w.flex.core.proposals.get? id = some p → CleanStart w.log id p.startHeight →
+    (ballotsOf w.flex.core id).get? p.proposer = some b → memberAt w.group p.proposer p.startHeight = some b.weight
+
+theorem TotalInv.mono {w : World} {H H' : Nat} (h : TotalInv w H) (hh : H ≤ H') : TotalInv w H' := by
+  refine ⟨h.snap.mono hh, h.inv', h.grp, ?_, h.total, h.propBallot⟩
+  intro hn
+  by_cases e : H = H'
+  · subst e; exact h.fresh hn
+  · exact ⟨H, by omega, h.snap.membersLe, h.snap.totalLe⟩
+
+/-- A flex handler call in block `H` keeps `TotalInv · H`. -/
+theorem total_flex {w : World} {blk : Block} {snd : Addr} {funds : List Coin} {em : ExecMsg} {s' : State} {out : List Out}
+    (hq : TotalInv w blk.height) (he : Cw3Flex.execute w.flex w.group w.self blk snd funds em = .ok (s', out)) :
+    TotalInv { w with flex := s', log := w.log ++ [eventOf w.flex snd em] } blk.height := by
+  have hnw : ∀ h, Event.groupWrite h ∉ w.log ++ [eventOf w.flex snd em] → Event.groupWrite h ∉ w.log :=
+    fun h hn hm => hn (List.mem_append_left _ hm)
+  refine ⟨snap_flex hq.snap he, execute_inv' hq.inv' he, hq.grp, fun hn => hq.fresh (hnw _ hn), ?_, ?_⟩
+  all_goals
+    obtain ⟨_, hc⟩ := execute_cases he
+    rcases hc with ⟨t, d, msgs, latest, w0, total, id0, hem, hw0, htot, _, _, hp⟩ | ⟨id0, v, hem, _, hv⟩ |
+      ⟨id0, p0, msgs, hem, _, hex, _⟩ | ⟨id0, p0, hem, _, hcl, _⟩ | ⟨hem, _, rfl, _⟩
+  -- total
+  · obtain ⟨expires, st, _, _, hid, _, hc'⟩ := propose_spec hp
+    intro id p hpp hcl
+    rw [cleanStart_snoc] at hcl
+    simp only [hc', AMap.get?_set] at hpp
+    by_cases e : id0 = id
+    · simp only [e, if_true, Option.some.injEq] at hpp; subst hpp
+      simp only
+      have hnot := hcl.1 ((eventOf_isProposed _ _ _ _).mpr ⟨⟨t, d, msgs, latest, hem⟩, by omega⟩)
+      obtain ⟨B, hB, hm, ht⟩ := hq.fresh hnot
+      obtain ⟨hsum, hnd, hu⟩ := hq.grp
+      have htotal : total = AMap.sum w.group.members.cur := by
+        rw [hsum] at htot; exact (Option.some.inj htot).symm
+      refine ⟨w.group.members.cur, hnd, htotal.symm, by omega, ?_, ?_⟩
+      · intro a
+        show w.group.members.atHeight a blk.height = _
+        rw [SnapMap.atHeight_of_logLe hm hB a]; rfl
+      · rw [Cell.atHeight_of_logLe ht hB]; exact htot
+    · simp only [e, if_false] at hpp; exact hq.total id p hpp hcl.2
+  · obtain ⟨p1, w1, votes, st, hp1, _, _, _, _, _, _, _, hc'⟩ := vote_spec hv
+    intro id p hpp hcl
+    rw [cleanStart_snoc] at hcl
+    simp only [hc', AMap.get?_set] at hpp
+    by_cases e : id0 = id
+    · simp only [e, if_true, Option.some.injEq] at hpp; subst hpp; subst e; exact hq.total id0 p1 hp1 hcl.2
+    · simp only [e, if_false] at hpp; exact hq.total id p hpp hcl.2
+  · obtain ⟨p1, hp1, _, _, _, hc'⟩ := execute_spec hex
+    intro id p hpp hcl
+    rw [cleanStart_snoc] at hcl
+    simp only [hc', AMap.get?_set] at hpp
+    by_cases e : id0 = id
+    · simp only [e, if_true, Option.some.injEq] at hpp; subst hpp; subst e; exact hq.total id0 p1 hp1 hcl.2
+    · simp only [e, if_false] at hpp; exact hq.total id p hpp hcl.2
+  · obtain ⟨p1, _, hp1, _, _, _, _, _, _, hc'⟩ := close_spec hcl
+    intro id p hpp hcl
+    rw [cleanStart_snoc] at hcl
+    simp only [hc', AMap.get?_set] at hpp
+    by_cases e : id0 = id
+    · simp only [e, if_true, Option.some.injEq] at hpp; subst hpp; subst e; exact hq.total id0 p1 hp1 hcl.2
+    · simp only [e, if_false] at hpp; exact hq.total id p hpp hcl.2
+  · intro id p hpp hcl
+    rw [cleanStart_snoc] at hcl
+    exact hq.total id p hpp hcl.2
+  -- propBallot
+  · obtain ⟨expires, st, _, _, hid, _, hc'⟩ := propose_spec hp
+    have hnone : w.flex.core.proposals.get? id0 = none := hq.snap.inv.wf.fresh (by omega)
+    have hb0 : ballotsOf w.flex.core id0 = [] := hq.snap.inv.wf.noBallots id0 hnone
+    intro id p b hpp hcl hb
+    rw [cleanStart_snoc] at hcl
+    simp only [hc', AMap.get?_set] at hpp
+    simp only [hc', ballotsOf_set] at hb
+    by_cases e : id0 = id
+    · simp only [e, if_true, Option.some.injEq] at hpp hb
+      rw [← e, hb0] at hb
+      subst hpp
+      simp [AMap.set, AMap.get?] at hb
+      subst hb
+      have hnot := hcl.1 ((eventOf_isProposed _ _ _ _).mpr ⟨⟨t, d, msgs, latest, hem⟩, by omega⟩)
+      obtain ⟨B, hB, hm, _⟩ := hq.fresh hnot
+      show w.group.members.atHeight snd blk.height = some w0
+      rw [SnapMap.atHeight_of_logLe hm hB snd]; exact hw0
+    · simp only [e, if_false] at hpp hb; exact hq.propBallot id p b hpp hcl.2 hb
+  · obtain ⟨p1, w1, votes, st, hp1, _, _, hw, hw1, hnb, _, _, hc'⟩ := vote_spec hv
+    intro id p b hpp hcl hb
+    rw [cleanStart_snoc] at hcl
+    simp only [hc', AMap.get?_set] at hpp
+    simp only [hc', ballotsOf_set] at hb
+    by_cases e : id0 = id
+    · simp only [e, if_true, Option.some.injEq] at hpp hb
+      subst hpp; subst e
+      simp only at hb ⊢
+      rw [AMap.get?_set] at hb
+      by_cases ea : snd = p1.proposer
+      · simp only [ea, if_true, Option.some.injEq] at hb; subst hb; rw [← ea]; exact hw
+      · simp only [ea, if_false] at hb; exact hq.propBallot id0 p1 b hp1 hcl.2 hb
+    · simp only [e, if_false] at hpp hb; exact hq.propBallot id p b hpp hcl.2 hb
+  · obtain ⟨p1, hp1, _, _, _, hc'⟩ := execute_spec hex
+    intro id p b hpp hcl hb
+    rw [cleanStart_snoc] at hcl
+    simp only [hc', AMap.get?_set] at hpp
+    simp only [hc', ballotsOf_frame] at hb
+    by_cases e : id0 = id
+    · simp only [e, if_true, Option.some.injEq] at hpp; subst hpp; subst e; exact hq.propBallot id0 p1 b hp1 hcl.2 hb
+    · simp only [e, if_false] at hpp; exact hq.propBallot id p b hpp hcl.2 hb
+  · obtain ⟨p1, _, hp1, _, _, _, _, _, _, hc'⟩ := close_spec hcl
+    intro id p b hpp hcl hb
+    rw [cleanStart_snoc] at hcl
+    simp only [hc', AMap.get?_set] at hpp
+    simp only [hc', ballotsOf_frame] at hb
+    by_cases e : id0 = id
+    · simp only [e, if_true, Option.some.injEq] at hpp; subst hpp; subst e; exact hq.propBallot id0 p1 b hp1 hcl.2 hb
+    · simp only [e, if_false] at hpp; exact hq.propBallot id p b hpp hcl.2 hb
+  · intro id p b hpp hcl hb
+    rw [cleanStart_snoc] at hcl
+    exact hq.propBallot id p b hpp hcl.2 hb
+
+/-- A group call in block `H` keeps `TotalInv · H`: its writes are invisible at every height `≤ H`, and the group keeps
+its own invariant (C09). -/
+theorem total_group {w : World} {blk : Block} {snd : Addr} {m : Cw4Group.Msg} {g' : Cw4Group.State} {outs : List Cw4Group.Out}
+    (hq : TotalInv w blk.height) (hg : Cw4Group.execute w.group blk.height snd m = .ok (g', outs)) :
+    TotalInv { w with group := g', log := w.log ++ [.groupWrite blk.height] } blk.height := by
+  have hs := CwPlus.Props.C09.execute_sameBlock hg
+  have hcs : ∀ id h, CleanStart (w.log ++ [Event.groupWrite blk.height]) id h → CleanStart w.log id h :=
+    fun id h hc => ((cleanStart_snoc _ _ _ _).mp hc).2
+  refine ⟨snap_group hq.snap hg, hq.inv', CwPlus.Props.C09.execute_inv hq.grp hg, ?_, ?_, ?_⟩
+  · intro hn; exact absurd (List.mem_append_right _ (List.mem_singleton.mpr rfl)) hn
+  · intro id p hp hcl
+    have hle := hq.snap.startLe id p hp
+    obtain ⟨M, hnd, hsum, hu, hmem, htot⟩ := hq.total id p hp (hcs _ _ hcl)
+    refine ⟨M, hnd, hsum, hu, ?_, ?_⟩
+    · intro a
+      show g'.members.atHeight a p.startHeight = _
+      rw [hs.1.atHeight_le hq.snap.membersLe a hle]; exact hmem a
+    · show g'.total.atHeight p.startHeight = _
+      rw [hs.2.atHeight_le hq.snap.totalLe hle]; exact htot
+  · intro id p b hp hcl hb
+    have hle := hq.snap.startLe id p hp
+    show g'.members.atHeight p.proposer p.startHeight = _
+    rw [hs.1.atHeight_le hq.snap.membersLe _ hle]
+    exact hq.propBallot id p b hp (hcs _ _ hcl) hb
+
+theorem total_step (ext : Ext) (fuel : Nat) {w : World} {H : Nat} (op : Op) (hq : TotalInv w H) (hH : H ≤ op.blk.height) :
+    TotalInv (step ext fuel w op) op.blk.height := by
+  have hq' := hq.mono hH
+  unfold step
+  split
+  · rename_i w' htx
+    exact tx_inv ext (fun w => TotalInv w op.blk.height) op.blk
+      (fun w snd funds em s' out hq he => total_flex hq he)
+      (fun w snd m g' outs hq hg => total_group hq hg)
+      (fun w b hq => ⟨⟨hq.snap.inv, hq.snap.membersLe, hq.snap.totalLe, hq.snap.startLe, hq.snap.ballot⟩, hq.inv', hq.grp,
+        hq.fresh, hq.total, hq.propBallot⟩)
+      (fun w t hq => ⟨⟨hq.snap.inv, hq.snap.membersLe, hq.snap.totalLe, hq.snap.startLe, hq.snap.ballot⟩, hq.inv', hq.grp,
+        hq.fresh, hq.total, hq.propBallot⟩) hq' htx
+  · exact hq'
+
+/-- The freshly instantiated world satisfies `TotalInv · H0` when the group satisfies its own invariant and its
+changelogs are bounded by the instantiation height `H0` (which the initial ghost log records as a group write). -/
+theorem total_init {m : InstMsg} {s : State} {g : Cw4Group.State} (t : Cw20.State) (bank : AMap (Addr × String) Nat)
+    (self ga ta : Addr) {H0 : Nat} (hi : instantiate m (some g) = .ok s) (hg : CwPlus.Props.C09.Inv g)
+    (hgm : g.members.LogLe H0) (hgt : g.total.LogLe H0) : TotalInv (World.init s g t bank self ga ta H0) H0 := by
+  have hcore := instantiate_core hi
+  refine ⟨⟨instantiate_inv hi, hgm, hgt, ?_, ?_⟩, instantiate_inv' hi, hg, ?_, ?_, ?_⟩
+  · intro id p hp; simp [World.init, hcore, Core.empty] at hp
+  · intro id p a b hp; simp [World.init, hcore, Core.empty] at hp
+  · intro hn; simp [World.init] at hn
+  · intro id p hp; simp [World.init, hcore, Core.empty] at hp
+  · intro id p b hp; simp [World.init, hcore, Core.empty] at hp
+
+/-- Worlds reached from an accepted instantiation of the multisig on a cw4-group that satisfies the cw4-group
+invariant of C09 (as every instantiated cw4-group does, after any history of its own: `C09.run_inv`) and whose
+changelogs are bounded by `h0`, by a history (transactions on the multisig, the group, the token) whose blocks are at
+or after height `h0` and never go back.  The last argument is the block of the last transaction. -/
+inductive ReachableSnap (ext : Ext) (fuel : Nat) : World → Block → Prop
+  | init {m : InstMsg} {s : State} (g : Cw4Group.State) (t : Cw20.State) (bank : AMap (Addr × String) Nat)
+      (self groupAddr tokenAddr : Addr) (h0 : Nat) (b : Block) :
+      instantiate m (some g) = .ok s → CwPlus.Props.C09.Inv g → g.members.LogLe h0 → g.total.LogLe h0 → h0 ≤ b.height →
+      ReachableSnap ext fuel (World.init s g t bank self groupAddr tokenAddr h0) b
+  | step {w : World} {b : Block} (op : Op) : ReachableSnap ext fuel w b → C04.later b op.blk →
+      ReachableSnap ext fuel (step ext fuel w op) op.blk
+
+/-- The hypotheses of `ReachableSnap.init` about the group hold for every freshly instantiated cw4-group (instantiated at
+height `h0`): the multisig may be instantiated on it and any history at blocks `≥ h0` that never go back follows. -/
+theorem ReachableSnap.init_of_group_instantiate {ext : Ext} {fuel : Nat} {gm : Cw4Group.InstMsg} {h0 : Nat}
+    {g : Cw4Group.State} (hg : Cw4Group.instantiate gm h0 = .ok g) {m : InstMsg} {s : State}
+    (hi : instantiate m (some g) = .ok s) (t : Cw20.State) (bank : AMap (Addr × String) Nat) (self ga ta : Addr)
+    (b : Block) (hb : h0 ≤ b.height) : ReachableSnap ext fuel (World.init s g t bank self ga ta h0) b := by
+  have hsb := CwPlus.Props.C09.instantiate_sameBlock hg
+  exact ReachableSnap.init g t bank self ga ta h0 b hi (CwPlus.Props.C09.instantiate_inv hg)
+    (hsb.1.logLe (SnapMap.logLe_empty h0) (Nat.le_refl _)) (hsb.2.logLe (Cell.logLe_empty h0) (Nat.le_refl _)) hb
+
+theorem ReachableSnap.reachableAt {ext : Ext} {fuel : Nat} {w : World} {b : Block} (h : ReachableSnap ext fuel w b) :
+    ReachableAt ext fuel w b := by
+  induction h with
+  | init g t bank self ga ta h0 b hi _ _ _ _ => exact ReachableAt.init g t bank self ga ta h0 b hi
+  | step op _ hb ih => exact ReachableAt.step op ih hb
+
+theorem ReachableSnap.totalInv {ext : Ext} {fuel : Nat} {w : World} {b : Block} (h : ReachableSnap ext fuel w b) :
+    TotalInv w b.height := by
+  induction h with
+  | init g t bank self ga ta h0 b hi hg hgm hgt hle => exact (total_init t bank self ga ta hi hg hgm hgt).mono hle
+  | step op _ hb ih => exact total_step ext fuel op ih hb.1
+
+/-- Every ballot of a proposal created outside the same-block situation carries the weight the snapshot map of its
+start height has for the voter. -/
+theorem TotalInv.ballot_in_snapshot {w : World} {H : Nat} (hq : TotalInv w H) {id : Nat} {p : Proposal}
+    (hp : w.flex.core.proposals.get? id = some p) (hc : CleanStart w.log id p.startHeight) {a : Addr} {b : Ballot}
+    (hb : (ballotsOf w.flex.core id).get? a = some b) : memberAt w.group a p.startHeight = some b.weight := by
+  by_cases e : a = p.proposer
+  · subst e; exact hq.propBallot id p b hp hc hb
+  · exact (hq.snap.ballot id p a b hp hb e).1
+
+/-- **C06 "ballots never outweigh the total", cw3-flex** (clause e).  On every history with non-decreasing blocks, for
+every proposal whose `Propose` was not preceded by a group write in its own block (`CleanStart`, the exact complement of
+the known same-block finding D3): the recorded ballots together weigh at most the recorded `total_weight`, the
+recorded total is the group's `TotalWeight { at_height: start_height }` in the FINAL group state, and it fits `u64`. -/
+theorem flex_sum_ballots_le_total {ext : Ext} {fuel : Nat} {w : World} {b : Block} (hr : ReachableSnap ext fuel w b)
+    {id : Nat} {p : Proposal} (hp : w.flex.core.proposals.get? id = some p) (hc : CleanStart w.log id p.startHeight) :
+    weightSum (ballotsOf w.flex.core id) ≤ p.totalWeight ∧ p.totalWeight ≤ U64_MAX ∧
+      Cw4Group.queryTotalWeight w.group (some p.startHeight) = p.totalWeight := by
+  have hq := hr.totalInv
+  obtain ⟨M, hnd, hsum, hu, hmem, htot⟩ := hq.total id p hp hc
+  refine ⟨?_, hu, by simp [Cw4Group.queryTotalWeight, htot]⟩
+  rw [← hsum]
+  refine weightSum_le_sum _ M (hq.snap.inv.wf.nodup id) hnd ?_
+  intro a b hb
+  rw [← hmem a]; exact hq.ballot_in_snapshot hp hc hb
+
+/-- … hence the stored tally (yes + no + abstain + veto) never exceeds the recorded total: `C04.Premise.tally_le`. -/
+theorem flex_tally_le_total {ext : Ext} {fuel : Nat} {w : World} {b : Block} (hr : ReachableSnap ext fuel w b)
+    {id : Nat} {p : Proposal} (hp : w.flex.core.proposals.get? id = some p) (hc : CleanStart w.log id p.startHeight) :
+    p.votes.yes + p.votes.no + p.votes.abstain + p.votes.veto ≤ p.totalWeight := by
+  have h := (flex_sum_ballots_le_total hr hp hc).1
+  rw [weightSum_eq] at h
+  rw [hr.totalInv.snap.inv.wf.tally id p hp]
+  exact h
+
+/-- … so the four tally counters together fit `u64` (`Proposal.Fits`): the proviso of `C05Flex.query_always_answers`
+and `C15.failed_deposit_recoverable_reachable` holds for every proposal created outside the same-block situation, and
+its `current_status` never fails, at any block. -/
+theorem flex_fits {ext : Ext} {fuel : Nat} {w : World} {b : Block} (hr : ReachableSnap ext fuel w b)
+    {id : Nat} {p : Proposal} (hp : w.flex.core.proposals.get? id = some p) (hc : CleanStart w.log id p.startHeight) :
+    p.Fits ∧ ∀ blk, ∃ st, p.currentStatus blk = .ok st := by
+  have h1 := flex_tally_le_total hr hp hc
+  have h2 := (flex_sum_ballots_le_total hr hp hc).2.1
+  have hf : p.Fits := by unfold Proposal.Fits; omega
+  exact ⟨hf, fun blk => reachable_statusInv hr.reachableAt.reachable id p hp hf blk⟩
+
+/-- **C06 "the proposer's ballot and the total are snapshot values", cw3-flex, history level** (clause c).  On every
+history with non-decreasing blocks, for every proposal whose `Propose` was not preceded by a group write in its own
+block: in the FINAL world — after all later membership changes — `total_weight` is the group's
+`TotalWeight { at_height: start_height }`, and EVERY ballot (the proposer's first Yes included) carries the group's
+`Member { voter, at_height: start_height }`.  (The voters' part needs no guard: `ballots_are_snapshot`.) -/
+theorem proposer_and_total_are_snapshot {ext : Ext} {fuel : Nat} {w : World} {b : Block} (hr : ReachableSnap ext fuel w b)
+    {id : Nat} {p : Proposal} (hp : w.flex.core.proposals.get? id = some p) (hc : CleanStart w.log id p.startHeight) :
+    p.totalWeight = Cw4Group.queryTotalWeight w.group (some p.startHeight) ∧
+    (∀ a bl, (ballotsOf w.flex.core id).get? a = some bl → memberAt w.group a p.startHeight = some bl.weight) := by
+  exact ⟨(flex_sum_ballots_le_total hr hp hc).2.2.symm, fun a bl hb => hr.totalInv.ballot_in_snapshot hp hc hb⟩
+
+/-! ## later changes are irrelevant over a whole history suffix; `ReachableSnap` along `run` -/
+
+/-- The group's changelogs are bounded by `H`, and every at-height answer for a height `≤ H0` is the one of `w0`. -/
+structure FrozenBelow (w0 : World) (H0 : Nat) (w : World) (H : Nat) : Prop where
+  le : H0 ≤ H
+  membersLe : w.group.members.LogLe H
+  totalLe : w.group.total.LogLe H
+  member : ∀ a h, h ≤ H0 → memberAt w.group a h = memberAt w0.group a h
+  total : ∀ h, h ≤ H0 → Cw4Group.queryTotalWeight w.group (some h) = Cw4Group.queryTotalWeight w0.group (some h)
+
+theorem frozen_step (ext : Ext) (fuel : Nat) {w0 w : World} {H0 H : Nat} (op : Op) (hq : FrozenBelow w0 H0 w H)
+    (hH : H ≤ op.blk.height) : FrozenBelow w0 H0 (step ext fuel w op) op.blk.height := by
+  have hq' : FrozenBelow w0 H0 w op.blk.height :=
+    ⟨Nat.le_trans hq.le hH, hq.membersLe.mono hH, hq.totalLe.mono hH, hq.member, hq.total⟩
+  unfold step
+  split
+  · rename_i w' htx
+    refine tx_inv ext (fun w => FrozenBelow w0 H0 w op.blk.height) op.blk
+      (fun w snd funds em s' out hq he => ⟨hq.le, hq.membersLe, hq.totalLe, hq.member, hq.total⟩)
+      (fun w snd m g' outs hq hg => ?_)
+      (fun w b hq => ⟨hq.le, hq.membersLe, hq.totalLe, hq.member, hq.total⟩)
+      (fun w t hq => ⟨hq.le, hq.membersLe, hq.totalLe, hq.member, hq.total⟩) hq' htx
+    have hs := CwPlus.Props.C09.execute_sameBlock hg
+    refine ⟨hq.le, hs.1.logLe hq.membersLe (Nat.le_refl _), hs.2.logLe hq.totalLe (Nat.le_refl _), ?_, ?_⟩
+    · intro a h hh
+      rw [← hq.member a h hh]
+      exact hs.1.atHeight_le hq.membersLe a (Nat.le_trans hh hq.le)
+    · intro h hh
+      rw [← hq.total h hh]
+      simp only [Cw4Group.queryTotalWeight]
+      rw [hs.2.atHeight_le hq.totalLe (Nat.le_trans hh hq.le)]
+  · exact hq'
+
+/-- **Later membership changes never alter any snapshot answer — over a whole history** (clause f).  From a world whose
+group changelogs are bounded by `H`, run ANY further history (transactions on the multisig, the group, the token; group
+updates dispatched by proposals and hooks included) at non-decreasing block heights `≥ H`: the group's answers
+`Member { addr, at_height: h }` and `TotalWeight { at_height: h }` are unchanged for every `h ≤ H` — in particular for
+the start height of every proposal that already exists, so the weights of future ballots and the snapshot totals of
+existing proposals are unaffected by anything that happens later.  (Recorded ballots and totals themselves never
+change: `C05Flex.ballot_never_changes`, `C05Flex.proposal_immutable`.) -/
+theorem later_changes_irrelevant_run (ext : Ext) (fuel : Nat) (ops : List Op) : ∀ (w : World) (H : Nat),
+    w.group.members.LogLe H → w.group.total.LogLe H → (∀ op ∈ ops, H ≤ op.blk.height) → Ordered ops →
+    (∀ a h, h ≤ H → memberAt (run ext fuel w ops).group a h = memberAt w.group a h) ∧
+    (∀ h, h ≤ H → Cw4Group.queryTotalWeight (run ext fuel w ops).group (some h) = Cw4Group.queryTotalWeight w.group (some h)) := by
+  intro w H hm ht hge hord
+  have key : ∀ (ops : List Op) (v : World) (K : Nat), FrozenBelow w H v K → (∀ op ∈ ops, K ≤ op.blk.height) → Ordered ops →
+      ∃ K', FrozenBelow w H (run ext fuel v ops) K' := by
+    intro ops
+    induction ops with
+    | nil => intro v K hq _ _; exact ⟨K, hq⟩
+    | cons op rest ih =>
+      intro v K hq hge hord
+      have hp := List.pairwise_cons.mp hord
+      exact ih _ op.blk.height (frozen_step ext fuel op hq (hge op (by simp))) (fun o ho => hp.1 o ho) hp.2
+  obtain ⟨K', hq⟩ := key ops w H ⟨Nat.le_refl _, hm, ht, fun _ _ _ => rfl, fun _ _ => rfl⟩ hge hord
+  exact ⟨hq.member, hq.total⟩
+
+/-- A list of transactions whose blocks never go back, starting at or after `b`. -/
+def BlocksFrom : Block → List Op → Prop
+  | _, [] => True
+  | b, op :: rest => C04.later b op.blk ∧ BlocksFrom op.blk rest
+
+/-- the block of the last transaction (`b` if there is none) -/
+def lastBlock : Block → List Op → Block
+  | b, [] => b
+  | _, op :: rest => lastBlock op.blk rest
+
+/-- `ReachableSnap` along `run`: any further history whose blocks never go back leads to a `ReachableSnap` world. -/
+theorem ReachableSnap.run {ext : Ext} {fuel : Nat} : ∀ (ops : List Op) {w : World} {b : Block},
+    ReachableSnap ext fuel w b → BlocksFrom b ops → ReachableSnap ext fuel (Cw3Flex.run ext fuel w ops) (lastBlock b ops)
+  | [], _, _, hr, _ => hr
+  | op :: rest, _, _, hr, hb => ReachableSnap.run rest (ReachableSnap.step op hr hb.1) hb.2
+
+/-- Non-vacuity: the history of `C06_flex_counterexample` moved one block on (group update in block 10, `Propose` in
+block 11, `b` votes in block 12) is a `ReachableSnap` history, the guard holds for proposal 1, and ballots 3 + 4 = 7 ≤
+total 7.  In the counterexample history itself the guard is false. -/
+def Cex.opsOk : List Op :=
+  [⟨⟨10, 0⟩, .group "adm" (.updateMembers [] [(⟨true, "a"⟩, 3)])⟩,
+   ⟨⟨11, 0⟩, .flex "a" [] (.propose "t" "d" [] none)⟩,
+   ⟨⟨12, 0⟩, .flex "b" [] (.vote 1 .no)⟩]
+
+theorem Cex.group0_inv : CwPlus.Props.C09.Inv Cex.group0 :=
+  CwPlus.Props.C09.instantiate_inv (msg := ⟨some ⟨true, "adm"⟩, [(⟨true, "a"⟩, 1), (⟨true, "b"⟩, 4)]⟩) (h0 := 5) rfl
+
+theorem Cex.group0_logLe : Cex.group0.members.LogLe 5 ∧ Cex.group0.total.LogLe 5 := by
+  have h := CwPlus.Props.C09.instantiate_sameBlock
+    (msg := ⟨some ⟨true, "adm"⟩, [(⟨true, "a"⟩, 1), (⟨true, "b"⟩, 4)]⟩) (h0 := 5) (s0 := Cex.group0) rfl
+  exact ⟨h.1.logLe (SnapMap.logLe_empty 5) (Nat.le_refl _), h.2.logLe (Cell.logLe_empty 5) (Nat.le_refl _)⟩
+
+theorem Cex.okReachable : ReachableSnap Cex.noExt 10 (run Cex.noExt 10 Cex.world0 Cex.opsOk) ⟨12, 0⟩ := by
+  have h0 : ReachableSnap Cex.noExt 10 Cex.world0 ⟨10, 0⟩ :=
+    ReachableSnap.init (m := Cex.inst) Cex.group0 Cex.token0 [] "ms" "grp" "tok" 5 ⟨10, 0⟩ rfl Cex.group0_inv
+      Cex.group0_logLe.1 Cex.group0_logLe.2 (by decide)
+  have h1 := ReachableSnap.step ⟨⟨10, 0⟩, .group "adm" (.updateMembers [] [(⟨true, "a"⟩, 3)])⟩ h0 ⟨Nat.le_refl _, Nat.le_refl _⟩
+  have h2 := ReachableSnap.step ⟨⟨11, 0⟩, .flex "a" [] (.propose "t" "d" [] none)⟩ h1 ⟨by decide, by decide⟩
+  exact ReachableSnap.step ⟨⟨12, 0⟩, .flex "b" [] (.vote 1 .no)⟩ h2 ⟨by decide, by decide⟩
+
+example :
+    let w := run Cex.noExt 10 Cex.world0 Cex.opsOk
+    CleanStart w.log 1 11 ∧
+    ((w.flex.core.proposals.get? 1).map fun p => (p.startHeight, p.totalWeight)) = some (11, 7) ∧
+    weightSum (ballotsOf w.flex.core 1) = 7 ∧ ¬ CleanStart Cex.final.log 1 10 := by
+  decide
+
+/-- non-vacuity of `vote_twice_fails`, `outsider_cannot_propose`, `zero_weight_cannot_vote`, `proposer_ballot_is_yes`
+on the reachable world `Cex.final`: `b` already holds a ballot on proposal 1, `x` is not in the group (no entry now, no
+weight at height 10), and the proposer `a` holds a Yes ballot -/
+example : Reachable Cex.noExt 10 Cex.final ∧
+    ((ballotsOf Cex.final.flex.core 1).get? "b").isSome = true ∧
+    (Cw3Flex.execute Cex.final.flex Cex.final.group "ms" ⟨11, 0⟩ "b" [] (.vote 1 .yes)).isOk = false ∧
+    memberNow Cex.final.group "x" = none ∧ (memberAt Cex.final.group "x" 10).getD 0 = 0 ∧
+    (Cw3Flex.execute Cex.final.flex Cex.final.group "ms" ⟨11, 0⟩ "x" [] (.propose "t" "d" [] none)).isOk = false ∧
+    (Cw3Flex.execute Cex.final.flex Cex.final.group "ms" ⟨11, 0⟩ "x" [] (.vote 1 .yes)).isOk = false ∧
+    (ballotsOf Cex.final.flex.core 1).get? "a" = some ⟨3, .yes⟩ :=
+  ⟨⟨Cex.inst, Cex.flex0, Cex.group0, Cex.token0, _, "ms", "grp", "tok", 5, Cex.ops, rfl, rfl⟩,
+   by decide, by decide, by decide, by decide, by decide, by decide, by decide⟩
+
+/-- non-vacuity of `vote_requires_open_window`: `b`'s vote in block 11 (third op of `Cex.ops`) is accepted in the world
+after the first two ops -/
+example :
+    let w := run Cex.noExt 10 Cex.world0 (Cex.ops.take 2)
+    (Cw3Flex.execute w.flex w.group "ms" ⟨11, 0⟩ "b" [] (.vote 1 .no)).isOk = true := by
+  decide
+
+/-- non-vacuity of `later_changes_irrelevant_run` and `ReachableSnap.run`: `Cex.opsOk` is ordered, at heights ≥ 5 (the
+bound of `group0`'s changelogs), and its blocks never go back from block 10 -/
+example : Ordered Cex.opsOk ∧ (∀ op ∈ Cex.opsOk, 5 ≤ op.blk.height) ∧ BlocksFrom ⟨10, 0⟩ Cex.opsOk ∧
+    lastBlock ⟨10, 0⟩ Cex.opsOk = ⟨12, 0⟩ :=
+  ⟨by unfold Ordered; decide, by decide,
+   ⟨⟨by decide, by decide⟩, ⟨by decide, by decide⟩, ⟨by decide, by decide⟩, trivial⟩, rfl⟩
 
 end CwPlus.Props.C06Flex
